@@ -170,14 +170,18 @@ let blkpeer toks =
   match toks with
   | dir :: len :: seed :: mx :: items ->
       let blen = int_of_string len in
-      let body = body_of blen (int_of_string seed) in
+      let bodies = Hashtbl.create 8 in
+      let body_t t =
+        match Hashtbl.find_opt bodies t with
+        | Some b -> b
+        | None -> let b = body_of blen (int_of_string seed + t) in Hashtbl.add bodies t b; b in
       let junk _ = z_of_int (-1) in
       let tab = ref [] and cst = ref { cr_etag = None; cr_st = None } in
-      let show o =
+      let show t o =
         match o with
         | BoDeliver d ->
             if List.exists (fun x -> int_of_z x < 0) d then "D?"
-            else Printf.sprintf "D:%d:%08x" (List.length d) (fnv d)
+            else Printf.sprintf "D:%d:%08x:%s" (List.length d) (fnv d) (if d = body_t t then "=" else "!")
         | BoPass -> "P"
         | o -> out_letter o in
       let res = List.map (fun it ->
@@ -185,22 +189,23 @@ let blkpeer toks =
           | [n; m; s; sz; off; ln; tag] ->
               let off = max 0 (min blen (int_of_string off)) in
               let ln = max 0 (min (blen - off) (int_of_string ln)) in
+              let ti = if tag = "-" then 0 else int_of_string tag in
               let a = { ba_num = zi n; ba_m = zi m; ba_szx = zi s;
                         ba_size = (if sz = "-" then None else Some (zi sz));
-                        ba_data = sub body off ln } in
+                        ba_data = sub (body_t ti) off ln } in
               let tg = if tag = "-" then None else Some (zi tag) in
               if dir = "b1" then begin
                 let (t', o) = blk_srv_recv junk (zi mx) !tab { rq_rtag = tg; rq_arr = a } in
                 tab := t';
                 (match o with
                  | BoPass -> Printf.sprintf "P:%d:%08x" ln (fnv a.ba_data)
-                 | o -> show o)
+                 | o -> show ti o)
               end else begin
                 let ((c', o), _) = blk_cli_recv junk !cst { rs_etag = tg; rs_arr = a } in
                 cst := c';
                 (match o with
                  | BoPass -> Printf.sprintf "P:%d:%08x" ln (fnv a.ba_data)
-                 | o -> show o)
+                 | o -> show ti o)
               end
           | _ -> "BADITEM") items in
       String.concat " " res ^ " END"
